@@ -45,7 +45,7 @@ func isExecutableFile(filePath string) (bool, error) {
 // and gets plugin name from it based on spec: https://github.com/notaryproject/specifications/blob/main/specs/plugin-extensibility.md#installation
 func parsePluginName(fileName string) (string, error) {
 	pluginName, found := strings.CutPrefix(fileName, plugin.BinaryPrefix)
-	if !found || pluginName == "" {
+	if !found || validatePluginName(pluginName) != nil {
 		return "", fmt.Errorf("invalid plugin executable file name. Plugin file name requires format notation-{plugin-name}, but got %s", fileName)
 	}
 	return pluginName, nil
